@@ -1107,7 +1107,7 @@ def _x_cancel_call(draw, og):
 @extra("cancel-then-reduce")
 def _x_cancel_reduce(draw, og):
     a = og.array(draw, min_ndim=1, max_ndim=2)
-    return {"args": [P(a)], "kw": {"how": draw(st.sampled_from(["sum", "derivative", "index", "mul"]))}}
+    return {"args": [P(a)], "kw": {"how": draw(st.sampled_from(["sum", "derivative", "index", "mul", "diffvar"]))}}
 
 
 @extra("construct-monomial")
@@ -1363,6 +1363,11 @@ def invoke_extra(name, args, kw):
             return numpoly.derivative(z, 0)
         if how == "index":
             return z[0]
+        if how == "diffvar":
+            # differentiate with respect to a variable that itself carries a cancelled (all-zero when retained) term
+            v = numpoly.symbols(p.names[0])
+            w = numpoly.symbols(p.names[-1] if len(p.names) > 1 else "q9")
+            return numpoly.derivative(p, (v + w) - w)
         return z * p
     if name in ("gradient", "hessian", "decompose", "isconstant", "tonumpy", "lead_exponent", "lead_coefficient",
                 "sortable_proxy", "clean_attributes", "polynomial", "aspolynomial", "to_sympy"):
